@@ -29,7 +29,9 @@ type Replay struct {
 	Flt  *Flt    `json:"flt,omitempty"`
 	Pos  PosSpec `json:"pos"`
 	Ops  []Op    `json:"ops,omitempty"`
-	Drain string `json:"drain,omitempty"` // "", fw, bk: the oracle applies to drains
+	Drain string `json:"drain,omitempty"` // "", fw, bk, turn-fb, turn-bf: the oracle applies to drains
+	// e2e with a fault: the journal of partition OpenFail-1 of the store cannot be opened (0: no fault)
+	OpenFail int `json:"open_fail,omitempty"`
 	// e2e
 	Parts  []PartSpec `json:"parts,omitempty"`
 	Subset []int      `json:"subset,omitempty"`
@@ -237,12 +239,16 @@ func runDirect(rp *Replay) (Case, error) {
 		}
 	}
 	cs.NonTrivial = nonEmpty >= 3
-	cs.Tags = []string{fmt.Sprintf("direct:nsrc=%d", n), "direct:script=" + map[string]string{"": "random", "fw": "drain-fw", "bk": "drain-bk"}[rp.Drain]}
+	cs.Tags = []string{fmt.Sprintf("direct:nsrc=%d", n), "direct:script=" + map[string]string{"": "random", "fw": "drain-fw", "bk": "drain-bk", "turn-fb": "turn-fb", "turn-bf": "turn-bf"}[rp.Drain]}
 	if rp.Flt != nil {
 		cs.Tags = append(cs.Tags, "direct:filtered")
 	}
 	if rec.hang {
 		cs.Oracle = &Violation{Class: "c04-hang", Detail: "a cursor operation of the script did not return"}
+		return cs, nil
+	}
+	if rp.Drain == "turn-fb" || rp.Drain == "turn-bf" {
+		cs.Oracle = oracleTurn(rp, rec)
 		return cs, nil
 	}
 	if rp.Drain != "" {
@@ -279,6 +285,81 @@ func runDirect(rp *Replay) (Case, error) {
 		}
 	}
 	return cs, nil
+}
+
+// oracleTurn: a script that reads some events in one direction (so that, typically, one source is exhausted while others
+// are not), switches the direction and drains. Source i has delivered d_i events before the switch, so its iterator stands
+// on its (d_i+1)-th record in the first direction (behind its last one if there is none): after the switch it alone delivers
+// that record and everything before it, in the new direction. The drain after the switch must be a merge of exactly these
+// per-source streams (complete, attributed, per-source order; time-ordered if every source is).
+func oracleTurn(rp *Replay, rec *obsRec) *Violation {
+	var first, second []Item
+	phase := 0
+	gi := 0
+	var last *Item
+	eof := false
+	for _, o := range rp.Ops {
+		switch o.K {
+		case "get":
+			last = rec.gets[gi]
+			gi++
+			if last == nil && phase == 1 {
+				eof = true
+			}
+		case "next":
+			if last != nil {
+				if phase == 0 {
+					first = append(first, *last)
+				} else if !eof {
+					second = append(second, *last)
+				}
+			}
+			last = nil
+		case "bk", "fw":
+			if (rp.Drain == "turn-fb" && o.K == "bk") || (rp.Drain == "turn-bf" && o.K == "fw") {
+				phase = 1
+				last = nil
+			}
+		}
+	}
+	if !eof {
+		return &Violation{Class: "c04-union", Detail: "the drain after the direction switch did not reach the end: " + fmtItems(second)}
+	}
+	d := map[int]int{}
+	for _, x := range first {
+		if x.Src < 0 || x.Src >= len(rp.Srcs) {
+			return &Violation{Class: "c04-attribution", Detail: "event delivered with unknown tags before the switch: " + fmtItems(first)}
+		}
+		d[x.Src]++
+	}
+	srcs := map[int][]Ev{}
+	sorted := true
+	for i, s := range rp.Srcs {
+		sorted = sorted && isSorted(s.Recs)
+		cnt := len(s.Recs)
+		if cnt == 0 {
+			srcs[i] = nil
+			continue
+		}
+		if rp.Drain == "turn-fb" {
+			hi := d[i]
+			if hi > cnt-1 {
+				hi = cnt - 1
+			}
+			srcs[i] = s.Recs[:hi+1]
+		} else {
+			lo := cnt - 1 - d[i]
+			if lo < 0 {
+				lo = 0
+			}
+			srcs[i] = s.Recs[lo:]
+		}
+	}
+	v := oracleMerge(second, srcs, rp.Drain == "turn-fb", sorted)
+	if v != nil {
+		v.Detail = fmt.Sprintf("after %d events in the first direction (%s) and the direction switch: %s", len(first), fmtItems(first), v.Detail)
+	}
+	return v
 }
 
 func genTs(r *Rng, kind, n int, base int64) []int64 {
@@ -328,13 +409,49 @@ func genDirect(r *Rng) *Replay {
 	}
 	x := r.Intn(100)
 	switch {
-	case x < 35:
+	case x < 30:
 		rp.Drain = "fw"
 		rp.Pos = PosSpec{Kind: "head"}
-	case x < 55:
+	case x < 45:
 		rp.Drain = "bk"
 		rp.Pos = PosSpec{Kind: "tail"}
 		rp.Ops = append(rp.Ops, Op{K: "bk"})
+	case x < 60 && n >= 2 && total >= 2 && !withFlt:
+		// read m events, switch the direction (sometimes after a Release: a page boundary), drain
+		m := r.Range(1, total)
+		sw := "bk"
+		if r.Chance(1, 2) {
+			rp.Drain = "turn-fb"
+			rp.Pos = PosSpec{Kind: "head"}
+		} else {
+			rp.Drain = "turn-bf"
+			rp.Pos = PosSpec{Kind: "tail"}
+			rp.Ops = append(rp.Ops, Op{K: "bk"})
+			sw = "fw"
+		}
+		for k := 0; k < m; k++ {
+			rp.Ops = append(rp.Ops, Op{K: "get"}, Op{K: "next"})
+			if r.Chance(1, 6) {
+				rp.Ops = append(rp.Ops, Op{K: "release"})
+			}
+		}
+		rp.Ops = append(rp.Ops, Op{K: "get"})
+		if r.Chance(1, 3) {
+			rp.Ops = append(rp.Ops, Op{K: "release"})
+		}
+		rp.Ops = append(rp.Ops, Op{K: sw})
+		for k := 0; k < total+2; k++ {
+			rp.Ops = append(rp.Ops, Op{K: "get"})
+			if r.Chance(1, 5) {
+				rp.Ops = append(rp.Ops, Op{K: "release"})
+			}
+			if r.Chance(1, 5) {
+				rp.Ops = append(rp.Ops, Op{K: "pos"})
+			}
+			rp.Ops = append(rp.Ops, Op{K: "next"})
+		}
+		rp.Ops = append(rp.Ops, Op{K: "get"})
+		return rp
 	default:
 		rp.Pos = PosSpec{Kind: r.PickStr("head", "head", "tail", "at")}
 		if rp.Pos.Kind == "at" {
@@ -712,6 +829,14 @@ func run(c *Ctx) error {
 		defer st.close()
 		// the subset index is the s<j> tag shared by all partitions of the subset
 		j := subsetIndex(rp.Parts, rp.Subset)
+		if rp.OpenFail > 0 {
+			cs, err := st.runOpenFail(j, rp.Subset, rp.OpenFail-1)
+			if err != nil {
+				return err
+			}
+			c.Add(cs)
+			return c.Finish(rule)
+		}
 		cs, err := st.runE2E(j, rp.Subset, rp.Where)
 		if err != nil {
 			return err
@@ -790,6 +915,19 @@ func run(c *Ctx) error {
 					return
 				}
 				cs, err := st.runE2E(j, sub, where)
+				if err != nil {
+					results[i].err = err
+					return
+				}
+				results[i].cases = append(results[i].cases, cs)
+			}
+			// the same read while the journal of one matching partition cannot be opened
+			if len(sub) >= 2 && len(sub) < 50 && r.Chance(1, 2) && !st.poisoned {
+				failed := sub[r.Intn(len(sub))]
+				if st.lay[failed].Jrnl == "" {
+					continue
+				}
+				cs, err := st.runOpenFail(j, sub, failed)
 				if err != nil {
 					results[i].err = err
 					return
